@@ -24,11 +24,20 @@ head = subprocess.check_output(["git", "-C", "/repo", "rev-parse", "--short", "H
 
 
 def scratch_copy(tag):
-    """a private copy of /verif (sources + Lean build output, ~300 MB) for runs against a scratch tree: the translators
-    of such a run rewrite lean/Midgard/Generated, which must not happen to the tree other work is building in"""
+    """a private copy of /verif for runs against a scratch tree: the working tree, or with SEED_USE_HEAD=1 the *committed*
+    sources (`git archive HEAD`: other work may be editing the working tree) plus the Lean build output (~300 MB; lake
+    rebuilds in the copy whatever differs).  The
+    translators of such a run rewrite lean/Midgard/Generated in the copy, never in the tree other work is building in."""
     vc = Path(f"/tmp/vc-{tag.lower()}")
-    subprocess.check_call(["rsync", "-a", "--delete", "--exclude", ".git", "--exclude", "seeded", "--exclude", "evidence",
-                           "--exclude", ".lock-*", f"{V}/", f"{vc}/"])
+    subprocess.run(["rm", "-rf", str(vc)]); vc.mkdir(parents=True)
+    if os.environ.get("SEED_USE_HEAD"):
+        subprocess.check_call(f"git -C {V} archive HEAD -- . ':!seeded' ':!evidence' | tar -x -C {vc}", shell=True)
+        r = subprocess.run(["rsync", "-a", f"{V}/lean/.lake", f"{vc}/lean/"])
+    else:
+        r = subprocess.run(["rsync", "-a", "--exclude", ".git", "--exclude", "seeded", "--exclude", "evidence",
+                            "--exclude", ".lock-*", f"{V}/", f"{vc}/"])
+    if r.returncode not in (0, 24):   # 24: a file vanished while copying (a concurrent build)
+        raise RuntimeError(f"rsync exit {r.returncode}")
     return vc
 
 
